@@ -245,7 +245,10 @@ fn gen_req(sc_alg: u16, secret: &str, now_base: u64, issue: &dyn Fn(&Value) -> S
         2 => {
             // single-character mutation
             let mut b = valid.clone().into_bytes();
-            let i = t::draw(b.len() as u32) as usize;
+            // anywhere, or (often) the last character of one of the three parts: its spare low bits are where a
+            // lenient decoder accepts what a strict one refuses
+            let ends: Vec<usize> = valid.char_indices().filter(|(_, c)| *c == '.').map(|(i, _)| i - 1).chain(std::iter::once(valid.len() - 1)).collect();
+            let i = if t::chance(1, 3) { t::pick(&ends) } else { t::draw(b.len() as u32) as usize };
             let mut c = t::pick(B64URL);
             if t::chance(1, 8) {
                 c = t::pick(&[b'.', b'=', b' ', b'+', b'/']);
@@ -285,7 +288,9 @@ fn gen_req(sc_alg: u16, secret: &str, now_base: u64, issue: &dyn Fn(&Value) -> S
         7 => {
             let parts: Vec<&str> = valid.split('.').collect();
             let sig = parts[2];
-            let s2 = match t::draw(4) {
+            let s2 = match t::draw(6) {
+                4 => format!("{sig}="),
+                5 => format!("{sig}=="),
                 0 => sig[..sig.len() - 1].to_string(),
                 1 => sig[..sig.len() / 2].to_string(),
                 2 => format!("{sig}A"),
